@@ -529,6 +529,11 @@ func (u *Upstream) withAckTimeoutCh(ctx context.Context, inCh <-chan *message.Up
 		defer cancel()
 		select {
 		case <-timeoutCtx.Done():
+			if ctx.Err() != nil {
+				// not an ack timeout: this run of the stream ended (outage or close). The chunk is still
+				// unacknowledged and has to stay in the sent storage for the retransmission after resume.
+				return
+			}
 			select {
 			case <-ctx.Done():
 			case <-u.ctx.Done():
